@@ -788,6 +788,19 @@ def execute_stat(scn, ctx):
                 viol.append({"invariant": "C11.samples_independent", "tags": tags,
                              "detail": f"lag-1 correlation of the {'positive' if w == 0 else 'negative'} class size between successive samples is "
                                        f"{mm[w] - 16.0:.3f} +- {tol[w]:.3f}, expected 0 (M={Mn})"})
+        # single-pass sampling stratified by label draws every score's multiplicity on its own with fixed class targets:
+        # the two class sizes of one sample are independent (without stratification the classes share one binomial split
+        # of the total and are negatively correlated by construction, so nothing is asked there)
+        if Mn >= 2000 and eff == "single_pass" and cfg.get("stratified_sampling") == "by_label" and not smoothing:
+            sd = np.maximum(sizes[:, :2].std(axis=0, ddof=1), 1e-9)
+            z = (sizes[:, :2] - sizes[:, :2].mean(axis=0)) / sd
+            prod = np.clip(z[:, 0] * z[:, 1], -16.0, 16.0)[:, None] + 16.0
+            ok, mm, tol = ST.mean_test(prod, np.full(1, 16.0), 32.0)
+            n_tests += 1
+            if not ok.all():
+                viol.append({"invariant": "C11.classes_independent", "tags": tags,
+                             "detail": f"correlation between the positive and the negative class size within one single-pass sample is "
+                                       f"{mm[0] - 16.0:.3f} +- {tol[0]:.3f}, expected 0 (M={Mn})"})
     trace = [["stat", tags, Mn, hashlib.sha1(cp.tobytes() + cn.tobytes() + sizes.tobytes()).hexdigest()[:16]]]
     return {
         "violations": viol, "trace": trace,
